@@ -214,6 +214,8 @@ def numeral_states():
     """every digit in every numeric position: subscripts 2..120 and all one-decimal forms d.d, charges ±1..±30,
     hydrate multipliers 2..30 (so that each digit glyph 0-9 occurs as a subscript and as a superscript)"""
     cnts = [str(n) for n in range(2, 121)] + ["%d.%d" % (a, b) for a in range(0, 10) for b in range(1, 10)] + ["12.25", "0.125"]
+    # decimal counts next to whole numbers and next to zero: read as written, never rounded
+    cnts += ["0.9995", "0.999", "1.0001", "1.001", "2.0004", "3.9999", "0.0004", "0.001", "10.0005"]
     for el in ("H", "Co"):
         for k in cnts:
             yield ((("el", el, k),), None, None, None, None, None)
